@@ -11,6 +11,7 @@ for sets and `hs= ro= fst=` for maps, because the harness runs all of them on th
   ts isbot                      -> bool
   tm merge <repr> <M>|<T>       M = k:v.v,k:-   -> <flag>/<map>/<tomb>
   tm state | tm perm <i,..> | tm isbot
+  tb union <A>|<B> <q>          bare TombstoneSet backends: X=collect A, Y=collect B -> <X.union_with(Y)>/<X>/<len>/<contains q>/<collect A extend B>
 Lists are `-` when empty.  Anything else -> bad-op.
 C04: `lat ...` lines, see Driver/LatDrv.lean.
 -/
@@ -98,6 +99,15 @@ def step (st : St) (line : String) : St × String :=
     match (parseNats "," p).bind (pickAll st.tsHist) with
     | some rs => (st, rep setTags (showTSet (TSet.mergeAll TSet.bot rs)))
     | none => (st, "bad-op")
+  | ["tb", "union", r, q] =>
+    match parseTSet r, q.toNat? with
+    | some ab, some q =>
+      let x := setCollect ab.live
+      let y := setCollect ab.tomb
+      let u := tombUnionWith x y
+      let e := setExtend x ab.tomb
+      (st, rep mapTags s!"{u.2}/{showNats "," u.1}/{u.1.length}/{showBool (u.1.contains q)}/{showNats "," e}")
+    | _, _ => (st, "bad-op")
   | ["tm", "merge", _, r] =>
     match parseTMap r with
     | some o =>
